@@ -8,6 +8,7 @@ COMMON = ["my heart", "the world", "your love", "a dream", "our song", "an angel
 PROPER = ["Black Betty", "Johnny B Goode", "Doctor Feelgood", "Tom Sawyer"]
 FUNCS = ["Midnight", "Polly", "Adder", "Deep Thought", "the hammer"]
 NUM_LITS = ["0", "1", "2", "3", "5", "7", "10", "0.5", "2.5", "100", "36", "16", "65", "1000000", "0.1", "3.75", "255"]
+ML_STR_LITS = ['"two\nlines"', '"ends\n"']
 STR_LITS = ['"a"', '"abc"', '"hello world"', '""', '"1"', '"42"', '"1.5"', '" x"', '"a,b,c"', '"ff"', '"é"', '"Zz"', '"x y z"']
 CONSTS = ["mysterious", "null", "nothing", "nowhere", "nobody", "gone", "true", "right", "yes", "ok",
           "false", "wrong", "no", "lies", "empty", "silent", "silence"]
@@ -29,8 +30,9 @@ SAY = ["say", "shout", "whisper", "scream"]
 
 
 class Gen:
-    def __init__(self, rng, illtyped=False, focus=None, sp=None, names=None, recase_names=True):
+    def __init__(self, rng, illtyped=False, focus=None, sp=None, names=None, recase_names=True, extras=True):
         self.recase_names = recase_names
+        self.extras = extras        # comments, multi-line strings, pronoun statements (off where an oracle rewrites the text line by line)
         self.r = rng
         # spelling choices (aliases, case, separators) come from a separate stream, so the same
         # structure seed with another spelling seed gives another spelling of the same tree
@@ -122,6 +124,8 @@ class Gen:
             v = self.var_of(("str",))
             if v and c < 0.5:
                 return self.recase(v)
+            if self.extras and c > 0.97:
+                return self.r.choice(ML_STR_LITS)
             return self.r.choice(STR_LITS)
         if kind == "arr":
             v = self.var_of(("arr",))
@@ -396,13 +400,14 @@ class Gen:
         self.stat("if")
         c = self.cond()
         saved = dict(self.vars)
-        body = self.block(self.r.randint(1, 3))
+        body = self.block(self.r.randint(1, 3)) if self.r.random() > 0.07 else [""]     # an empty then-block: a blank line
         self.vars = dict(saved)
         lines = [f"if {c}"] + body
         if self.r.random() < 0.5:
-            eb = self.block(self.r.randint(1, 2))
+            eb = self.block(self.r.randint(1, 2)) if self.r.random() > 0.07 else [""]
             self.vars = dict(saved)
             lines += ["else"] + eb
+        self.stat("if-empty" if body == [""] else "if-body")
         return lines + [""]
 
     def s_loop(self):
@@ -434,7 +439,7 @@ class Gen:
         return [self.sp.choice(self.r.choice([["break", "break it down"], ["continue", "take it to the top"]]))]
 
     def s_func(self):
-        if self.depth > 0 or self.in_func:
+        if self.depth > 1 or self.in_func > 1 or (self.depth + self.in_func > 0 and self.r.random() > 0.15):
             return self.s_say()
         self.stat("func")
         idxs = [i for i, f in enumerate(self.FUNCS) if f not in self.funcs and f not in self.vars] or list(range(len(self.FUNCS)))
@@ -446,6 +451,16 @@ class Gen:
             self.vars[p] = "num" if not self.ill else "any"
         self.in_func += 1
         self.funcs[name] = ar   # recursion allowed syntactically, guarded below
+        if self.r.random() < 0.06:
+            # an empty body: two blank lines after the header
+            self.in_func -= 1
+            self.vars = saved
+            self.stat("func-empty")
+            seps0 = [" and ", ", ", " & "]
+            ps0 = params[0]
+            for p in params[1:]:
+                ps0 += self.sp.choice(seps0) + p
+            return [f"{name} {self.sp.choice(['takes', 'wants'])} {ps0}", "", ""]
         body = self.block(self.r.randint(1, 3))
         c = self.r.random()
         if c < 0.8:
@@ -488,11 +503,27 @@ class Gen:
             x -= w
         return self.s_say()
 
+    def decorate(self, lines):
+        """sometimes a comment after a statement, a comment line of its own (a blank-looking line that is NOT blank would
+        end a block, so only inside a statement line), or a pronoun statement after it"""
+        if not self.extras:
+            return lines
+        c = self.sp.random()
+        if lines and lines[-1] != "" and c < 0.05 and "says " not in lines[-1] and " said " not in lines[-1] and '"' not in lines[-1] \
+                and " is " not in lines[-1] and " was " not in lines[-1] and " are " not in lines[-1] and " were " not in lines[-1] \
+                and "'s " not in lines[-1] and " like " not in lines[-1]:
+            lines = lines[:-1] + [lines[-1] + self.sp.choice([" (a comment)", " (two\nlines)", "(c)", " (ünï ✓)"])]
+            self.stat("comment")
+        if lines and lines[-1] != "" and self.r.random() < 0.05 and not self.in_func:
+            lines = lines + [self.r.choice(["say it", "build it up", "put it into Echo", "let it be 3", "knock it down", "put 1 into it", "say it at 0"])]
+            self.stat("pronoun-stmt")
+        return lines
+
     def block(self, n):
         self.depth += 1
         lines = []
         for _ in range(n):
-            lines += self.statement()
+            lines += self.decorate(self.statement())
         self.depth -= 1
         return lines
 
@@ -500,21 +531,21 @@ class Gen:
         n = n or self.r.randint(2, 9)
         lines = []
         for _ in range(n):
-            lines += self.statement()
+            lines += self.decorate(self.statement())
         # always end by showing the state: observable effects of everything before
         for v, k in list(self.vars.items())[:6]:
             lines.append(f"say {v}")
         return "\n".join(lines) + "\n"
 
 
-def gen_programs(seed, count, illtyped=False, focus=None, spelling_seed=None, names=None, recase_names=True):
+def gen_programs(seed, count, illtyped=False, focus=None, spelling_seed=None, names=None, recase_names=True, extras=True):
     """spelling_seed: same seed + different spelling_seed = other spellings of the same trees"""
     rng = random.Random(seed)
     sp_master = random.Random(seed * 7919 + 13 if spelling_seed is None else spelling_seed)
     out = []
     stats = {}
     for _ in range(count):
-        g = Gen(rng, illtyped=illtyped, focus=focus, sp=random.Random(sp_master.randrange(10 ** 9)), names=names, recase_names=recase_names)
+        g = Gen(rng, illtyped=illtyped, focus=focus, sp=random.Random(sp_master.randrange(10 ** 9)), names=names, recase_names=recase_names, extras=extras)
         out.append(g.program())
         for k, v in g.stats.items():
             stats[k] = stats.get(k, 0) + v
